@@ -318,6 +318,72 @@ def crash_case(n, kill, res, fill_time=None):
         shutil.rmtree(tmp, ignore_errors=True)
 
 
+def clear_crash_case(n, frac, res, clear_time):
+    """Kill the process while it removes the directory (clear=True, last holder
+    released); a reader then opens whatever is left with reuse=True: every value
+    it serves must be right (recomputing is fine, corruption is not)."""
+    case = {'n': n, 'kill': ['during-clear', frac]}
+    tmp = tempfile.mkdtemp(prefix='verif_c11c_')
+    d = os.path.join(tmp, 'cache')
+    sig = {'op': 'crash', 'kill': 'during-clear'}
+    try:
+        p = child([d, str(n), 'fill-then-clear'])
+        try:
+            line = p.stdout.readline()
+            while line and not line.startswith('clearing'):
+                line = p.stdout.readline()
+            time.sleep(frac * clear_time)
+            os.kill(p.pid, signal.SIGKILL)
+        finally:
+            p.kill()
+            p.wait()
+        left = sum(len(fs) for _, _, fs in os.walk(d)) if os.path.isdir(d) else 0
+        res.seen('files_left_after_kill_during_clear', min(left, 9) if left < 9 else 9)
+        if left:
+            res.count('kills_that_left_a_partial_directory')
+        r = child([d, str(n), 'read'])
+        try:
+            out, err = r.communicate(timeout=300)
+        except subprocess.TimeoutExpired:
+            r.kill()
+            res.inconclusive_because('read child timed out after kill during clear')
+            return
+        line = [l for l in out.splitlines() if l.startswith('RESULT')]
+        res.case(('clear-crash', n, frac), True)
+        res.count('crash_points')
+        res.count('clear_crash_points')
+        if not line:
+            # the library may refuse a half-removed directory loudly; a crash
+            # with a traceback is loud, silent corruption would not be
+            res.count('reopen_after_partial_clear_refused')
+            res.seen('reopen_after_partial_clear_errors', (err or '').strip().splitlines()[-1][:80]
+                     if err.strip() else 'no output')
+            return
+        rep = json.loads(line[0][7:])
+        if not rep['ok']:
+            res.violation('corrupt-or-misplaced-after-kill', case, rep, sig=sig)
+    finally:
+        shutil.rmtree(tmp, ignore_errors=True)
+
+
+def measure_clear(n):
+    tmp = tempfile.mkdtemp(prefix='verif_c11m_')
+    try:
+        p = child([os.path.join(tmp, 'cache'), str(n), 'fill-then-clear'])
+        line = p.stdout.readline()
+        while line and not line.startswith('clearing'):
+            line = p.stdout.readline()
+        t0 = time.monotonic()
+        while line and not line.startswith('cleared'):
+            line = p.stdout.readline()
+        dt = time.monotonic() - t0
+        p.kill()
+        p.wait()
+        return max(dt, 0.002)
+    finally:
+        shutil.rmtree(tmp, ignore_errors=True)
+
+
 def measure_fill(n):
     tmp = tempfile.mkdtemp(prefix='verif_c11m_')
     try:
@@ -373,6 +439,11 @@ def run_shard(spec, res):
         res.maximum('fill_time_ms', int(ft * 1000))
         for _ in range(spec['nrandkill'] // spec['mod']):
             crash_case(rn, ('time', round(rng.uniform(0.0, 1.05), 4)), res, fill_time=ft)
+        if spec['rem'] < 4:
+            ct = measure_clear(rn)
+            res.maximum('clear_time_ms', int(ct * 1000))
+            for _ in range(max(2, spec['nrandkill'] // 12)):
+                clear_crash_case(rn, round(rng.uniform(0.0, 1.0), 4), res, ct)
         res.sample({'n': n, 'kill': ['ack', 3],
                     'meaning': 'SIGKILL right after the 3rd acknowledged store, then reopen with reuse=True in a fresh process'})
 
